@@ -1,10 +1,12 @@
 CONSTANTS
-  Cmds = {"read", "set", "trigger"}
+  Cmds = {"read", "set"}
   Objs = {"x", "y"}
   HA = 2
-  PA = 3
+  PA = 2
   HB = 3
   PB = 1
+  BCmds = {"read"}
+  BObjs = {"x"}
   LimPlan = 2
   LimR = 1
   SetR = 2
